@@ -52,9 +52,14 @@ impl tracing::Subscriber for EvalLogs {
     fn exit(&self, _: &tracing::span::Id) {}
 }
 
+pub static PANICS: std::sync::atomic::AtomicUsize = std::sync::atomic::AtomicUsize::new(0);
+
 fn main() {
     let _ = tracing::subscriber::set_global_default(EvalLogs);
-    if std::env::var("DCH_VERBOSE").is_err() { std::panic::set_hook(Box::new(|_| {})); }
+    // panics are counted (a panic inside a connection task of the RPC server is otherwise only seen as a dropped connection)
+    if std::env::var("DCH_VERBOSE").is_err() {
+        std::panic::set_hook(Box::new(|_| { PANICS.fetch_add(1, std::sync::atomic::Ordering::SeqCst); }));
+    }
     let stdin = io::stdin();
     let stdout = io::stdout();
     let mut out = io::BufWriter::new(stdout.lock());
